@@ -798,6 +798,24 @@ func (e *Exec) rtypeMethod(rt RType, m string, args []Value) Value {
 		}
 		i := fieldIndex(t, name.C)
 		if i < 0 {
+			// promoted fields through embedded structs / pointers to structs (one level), as Value.FieldByName
+			st := under(t).(*types.Struct)
+			for k := 0; k < st.NumFields(); k++ {
+				if st.Field(k).Embedded() {
+					et := st.Field(k).Type()
+					if pt, ok := under(et).(*types.Pointer); ok {
+						et = pt.Elem()
+					}
+					if _, ok := under(et).(*types.Struct); !ok {
+						continue
+					}
+					if j := fieldIndex(et, name.C); j >= 0 {
+						sf := e.structFieldInfo(et, j).(*StructV)
+						sf.F[5] = e.mkSlice(types.Typ[types.Int], []Value{IntV{C: uint64(k)}, IntV{C: uint64(j)}}) // Index: through the embedded field
+						return Tuple{sf, BoolV{C: true}}
+					}
+				}
+			}
 			return Tuple{zero(sft), BoolV{C: false}}
 		}
 		return Tuple{e.structFieldInfo(t, i), BoolV{C: true}}
